@@ -227,6 +227,15 @@ def hist_dir(ctx, name):
     return d
 
 
+def show(b, total):
+    """the number quoted in messages (sum of the DD counts / of the histogram), or the exception that came instead"""
+    return "raised %s" % b[1] if isinstance(b, list) and b[:1] == ["raised"] else "%.6f" % total
+
+
+def show_ref(r):
+    return "raised %s" % r["raised"] if r.get("raised") else "%.6f" % r["total"]
+
+
 def run_mode(ctx, entry, cfg, cats, mode, w, seed):
     from props import c05 as base
     if mode == "w1":
@@ -340,7 +349,7 @@ def one_round(ctx, rnd, server, terms, metas):
             cfg = fr.make_config(st["rec"])
             log.alloc(cfg, st["vkey"])
             b, total = run_mode(ctx, st["entry"], cfg, tuple(sets[st["data"]]), st["mode"], st["workers"], st["seed"])
-            st["digest"], st["total"], st["recycled"] = fr.digest(b), total, id(cfg) in log.dead
+            st["digest"], st["total"], st["recycled"] = fr.digest(b), show(b, total), id(cfg) in log.dead
             log.use(cfg, st["vkey"], st["entry"], st["data"], st["digest"], k)
             ctx.bump("history/step/use-%s/%s/%s" % (st["entry"], st["mode"], st["kind"]))
             del b
@@ -383,7 +392,7 @@ def one_round(ctx, rnd, server, terms, metas):
         for entry in (plan["real_entries"] if mode == "real" else fr.ENTRIES):
             b, total = run_mode(ctx, entry, c, tuple(sets["A"]), "w1" if mode == "equal-w1" else mode, w, next(seeds))
             dg = fr.digest(b)
-            got[(mode, entry)] = (dg, total)
+            got[(mode, entry)] = (dg, show(b, total))
             log.use(c, vkey_t, entry, "A", dg, -1)
             del b
     for c in held:
@@ -424,8 +433,8 @@ def one_round(ctx, rnd, server, terms, metas):
             vc = log.vals.get(st["vkey"])
             r = log.res.get(st["digest"])
             same = [k2 for (vc2, a2), (r2, k2) in log.first.items() if a2 == a and r2 == r and vc2 != vc and k2 < k]
-            note = "%s, after %d earlier configurations%s, differs from the same measurement in a process without history (%.6f against %.6f)%s" % (
-                describe(plan, k), ndisc, " (at the address of a discarded one)" if st["recycled"] else "", st["total"], ref["result"][entry]["total"],
+            note = "%s, after %d earlier configurations%s, differs from the same measurement in a process without history (%s against %s)%s" % (
+                describe(plan, k), ndisc, " (at the address of a discarded one)" if st["recycled"] else "", st["total"], show_ref(ref["result"][entry]),
                 "; bit-identical to what an earlier configuration of ANOTHER value gave (%s)" % describe(plan, same[0]) if same else "")
             if st["mode"] == "w1":
                 ctx.fail("c05-%s-one-worker-differs-from-fresh-process-after-history" % entry, note, dict(replay, entry=entry, step=k), case=cid)
@@ -438,7 +447,7 @@ def one_round(ctx, rnd, server, terms, metas):
     else:
         fresh = ans["result"]
         for entry in fr.ENTRIES:
-            ref_dg, ref_total = fresh[entry]["digest"], fresh[entry]["total"]
+            ref_dg, ref_total = fresh[entry]["digest"], show_ref(fresh[entry])
             note = "after %d discarded configurations (%s)" % (
                 discarded, "the one under test lives at the address of one of them" if recycled else "the one under test does not live at the address of one of them")
             w1 = got[("w1", entry)]
@@ -449,7 +458,7 @@ def one_round(ctx, rnd, server, terms, metas):
             if w1[0] != ref_dg:
                 ctx.fail("c05-%s-one-worker-differs-from-fresh-process-after-history" % entry,
                          "%s with 1 worker in a process %s differs from the same measurement in a process without history "
-                         "(total DD / histogram weight %.6f against %.6f)%s" % (entry, note, w1[1], ref_total, stale(w1[0])), dict(replay, entry=entry), case=cid)
+                         "(total DD / histogram weight %s against %s)%s" % (entry, note, w1[1], ref_total, stale(w1[0])), dict(replay, entry=entry), case=cid)
             for mode, label in (("sim", "simulated-pool"), ("real", "real-pool")):
                 if (mode, entry) not in got:
                     continue
@@ -457,16 +466,16 @@ def one_round(ctx, rnd, server, terms, metas):
                 if g[0] != ref_dg:
                     ctx.fail("c05-%s-pool-differs-from-fresh-process-after-history:%s" % (entry, label),
                              "%s with %d workers (%s) started from a parent %s differs from the same measurement in a process without "
-                             "history (%.6f against %.6f)%s" % (entry, w, label, note, g[1], ref_total, stale(g[0])), dict(replay, entry=entry, pool=label), case=cid)
+                             "history (%s against %s)%s" % (entry, w, label, note, g[1], ref_total, stale(g[0])), dict(replay, entry=entry, pool=label), case=cid)
                 if g[0] != w1[0]:
                     ctx.fail("c05-%s-depends-on-worker-count-after-history" % entry,
                              "%s of ONE configuration object and the same catalogs gives other results with 1 worker than with %d workers "
-                             "(%s) %s (%.6f against %.6f; process without history: %.6f)" % (entry, w, label, note, w1[1], g[1], ref_total),
+                             "(%s) %s (%s against %s; process without history: %s)" % (entry, w, label, note, w1[1], g[1], ref_total),
                              dict(replay, entry=entry, pool=label), case=cid)
             e = got[("equal-w1", entry)]
             if e[0] != w1[0] or e[0] != ref_dg:
                 ctx.fail("c05-%s-differs-between-equal-configurations-after-history" % entry,
-                         "%s with two configuration objects of equal value, both with 1 worker, %s: %.6f and %.6f (process without history: %.6f)"
+                         "%s with two configuration objects of equal value, both with 1 worker, %s: %s and %s (process without history: %s)"
                          % (entry, note, w1[1], e[1], ref_total), dict(replay, entry=entry), case=cid)
     for entry, ds, first, second in log.clashes[:3]:
         ctx.fail("c05-%s-not-a-function-of-the-configuration-value-in-a-history" % entry,
